@@ -331,6 +331,10 @@ def run(ctx):
                 decl = job[2][0].decl()
             if kind in ("generate", "build"):
                 unbuilt.add("%s [%s]" % (decl, job[3]))
+                sig0 = c01.atom_sig(job[2][0])
+                if len(job[2]) == 1 and not any(c01.known_unbuildable(ctx, sig0, "cxx", sub, 0) for sub in ("c", "c+f")):
+                    ctx.violation("not-callable %s [naming %s]" % (sig0, job[3]), "%s has no callable C entry point (naming %s): %s" % (decl, job[3], msg[:700]),
+                                  {"kind": "not-callable", "decl": decl, "naming": job[3]})
                 continue
             ctx.violation("%s %s [naming %s]" % (kind, decl, job[3]), msg, {"kind": kind, "decl": decl, "naming": job[3]})
     sres = isolate.pmap(scenario_case, [(os.path.join(wd, "s-" + n), n) for n in NAMING], W)
